@@ -2277,6 +2277,45 @@ func ruleNestedUntainted(r *Run) {
 					if !isMk {
 						continue
 					}
+					// …and they are the lists of this item ONLY: an entry copied over from the enclosing
+					// scope's table (the parameter of the same type) makes an inner {{#each X}} of an item
+					// that has no X range over an outer list called X ("missing means empty" is lost)
+					if mk.Referrers() != nil {
+						inherited := ""
+						for _, u := range *mk.Referrers() {
+							mu, ok := u.(*ssa.MapUpdate)
+							if !ok || mu.Map != ssa.Value(mk) {
+								continue
+							}
+							// the stored value IS an entry of the enclosing table: the value variable of a range
+							// over the parameter, or a look-up in it
+							val := stripConv(mu.Value)
+							if ex, ok := val.(*ssa.Extract); ok {
+								if nx, ok := ex.Tuple.(*ssa.Next); ok {
+									if rg, ok := nx.Iter.(*ssa.Range); ok {
+										if par, isPar := rg.X.(*ssa.Parameter); isPar && par.Parent() == fn && types.Identical(par.Type(), mk.Type()) {
+											inherited = par.Name()
+										}
+									}
+								}
+								if lk, ok := ex.Tuple.(*ssa.Lookup); ok {
+									if par, isPar := lk.X.(*ssa.Parameter); isPar && par.Parent() == fn && types.Identical(par.Type(), mk.Type()) {
+										inherited = par.Name()
+									}
+								}
+							}
+							if lk, ok := val.(*ssa.Lookup); ok {
+								if par, isPar := lk.X.(*ssa.Parameter); isPar && par.Parent() == fn && types.Identical(par.Type(), mk.Type()) {
+									inherited = par.Name()
+								}
+							}
+						}
+						if inherited != "" {
+							n++
+							r.Check("nested-untainted", fmt.Sprintf("%s:arg%d:item-lists-only", shortName(fn), ai), c.Pos(), false,
+								fmt.Sprintf("%s hands the nested expansion a table of lists that also receives the entries of the enclosing scope (%s): an inner {{#each X}} of an item without a field X is expanded over an outer list named X instead of zero times", shortName(fn), inherited))
+						}
+					}
 					var loop *natLoop
 					for _, cand := range naturalLoops(g) {
 						if cand.Body[c.Block()] && (loop == nil || len(cand.Body) < len(loop.Body)) {
